@@ -70,23 +70,27 @@ def firstBad {β} (xs : List β) (p : Nat → β → Option String) : String :=
   if bad.isEmpty then "ok" else "bad@" ++ String.intercalate "," (bad.take 8)
 
 
-/-- one dumped node: `id/scale/nchildren/maxdist/parentdist` -/
+/-- one dumped node: `id/scale/nchildren/maxdist/parentdist`; the distances as printed (`maxR`, `parR`: exact dyadics)
+    and multiplied by `2^sh` (`maxDist`, `parentDist`: the integers of the model's `Space`, whose coordinates are the
+    unscaled integers of the case line) -/
 structure Rec where
   p : Nat
   scale : Nat
   nch : Nat
   maxDist : Int
   parentDist : Int
+  maxR : Rat
+  parR : Rat
 
-/-- an integer printed by `vh::num`: plain, or `m:e` (= m·2^e) for large magnitudes -/
-def intOf (s : String) : Option Int :=
-  match parseRat s with
-  | some q => if q.den = 1 then some q.num else none
-  | none => none
+/-- an integer-valued rational -/
+def intOfRat (q : Rat) : Option Int := if q.den = 1 then some q.num else none
 
-def parseRec (s : String) : Option Rec :=
+def parseRec (sh : Nat) (s : String) : Option Rec :=
   match s.splitOn "/" with
-  | [a, b, c, d, e] => do pure ⟨← a.toNat?, ← b.toNat?, ← c.toNat?, ← intOf d, ← intOf e⟩
+  | [a, b, c, d, e] => do
+    let m ← parseRat d
+    let pd ← parseRat e
+    pure ⟨← a.toNat?, ← b.toNat?, ← c.toNat?, ← intOfRat (m * (2 : Rat) ^ sh), ← intOfRat (pd * (2 : Rat) ^ sh), m, pd⟩
   | _ => none
 
 mutual
@@ -159,12 +163,15 @@ def showRec (r : Nat × Nat × Nat × Rat × Rat) : String :=
   s!"{r.1}/{r.2.1}/{r.2.2.1}/{showRat r.2.2.2.1}/{showRat r.2.2.2.2}"
 
 /-- `bt=.. bh=.. bls=..` -/
-def buildReport (sp : Space) (recs : List Rec) (leafScale : Nat) (gsS dsS : String) : String :=
+def buildReport (sp : Space) (sh : Nat) (recs : List Rec) (leafScale : Nat) (gsS dsS : String) : String :=
   match parseGs gsS, parseDs dsS with
   | some gs, some ds =>
     let gsA := gs.toArray
     let dsA := ds.toArray
-    let δ : Nat → Nat → Rat := fun a b => (sp.dist a b : Rat)
+    -- the distances the real code computes: the model's integers scaled by 2^-sh
+    let unit : Rat := 1 / (2 : Rat) ^ sh
+    let tab : Array (Array Rat) := Array.ofFn fun (a : Fin sp.N) => Array.ofFn fun (b : Fin sp.N) => (sp.dist a b : Rat) * unit
+    let δ : Nat → Nat → Rat := fun a b => (tab[a]!)[b]!
     let pts := List.range sp.N
     let bh := if !(ds.all fun e => decide (0 ≤ e.2)) then "neg" else "ok"
     match CoverBuild.batchCreate δ (gsOf gsA) (dsOf dsA) 1000000 pts with
@@ -172,7 +179,7 @@ def buildReport (sp : Space) (recs : List Rec) (leafScale : Nat) (gsS dsS : Stri
     | some (t, ls) =>
       let mine := flatten t
       let real : List (Nat × Nat × Nat × Rat × Rat) :=
-        recs.map fun r => (r.p, r.scale, r.nch, (r.maxDist : Rat), (r.parentDist : Rat))
+        recs.map fun r => (r.p, r.scale, r.nch, r.maxR, r.parR)
       let bt :=
         if mine == real then "ok"
         else
@@ -184,9 +191,9 @@ def buildReport (sp : Space) (recs : List Rec) (leafScale : Nat) (gsS dsS : Stri
 
 /-- `wf=..  mq=..  mqorder=..` : well-formedness certificate of the real tree, the model query run on it compared
     with the real candidate sets (as sets; identical order is a fidelity diagnostic only) -/
-def treeReport (sp : Space) (k : Nat) (treeS : String) (raw : List (List Nat)) (gsds : Option (String × String)) :
-    String :=
-  match allSome ((splitNonEmpty treeS ",").map parseRec) with
+def treeReport (sp : Space) (sh : Nat) (k : Nat) (treeS : String) (raw : List (List Nat))
+    (gsds : Option (String × String)) : String :=
+  match allSome ((splitNonEmpty treeS ",").map (parseRec sh)) with
   | none => "wf=unparsed"
   | some recs =>
     match buildNode recs with
@@ -194,7 +201,7 @@ def treeReport (sp : Space) (k : Nat) (treeS : String) (raw : List (List Nat)) (
       let wf := wfTree sp.dist sp.N top
       let leafScale := firstLeafScale top
       let br := match gsds with
-        | some (g, d) => " " ++ buildReport sp recs leafScale g d
+        | some (g, d) => " " ++ buildReport sp sh recs leafScale g d
         | none => ""
       match batchQuery sp.dist id (k + 1) leafScale top with
       | none => s!"wf={b2s wf} mq=fuel{br}"
@@ -242,7 +249,7 @@ def answer (line : String) : String :=
             let gsds := match field? fs "gs", field? fs "ds" with
               | some g, some d => some (g, d)
               | _, _ => none
-            " " ++ treeReport sp k t raw gsds
+            " " ++ treeReport sp (((field? fs "sh") >>= String.toNat?).getD 0) k t raw gsds
           | none => ""
         s!"model={showObs mlists} alt= impl={showObs ids} oracle={oracle} corr={wrap} wrap={wrap} cq={cq} queries={cover} ties={ties}{tr}"
       | _, _ => "model=- alt= no-impl"
